@@ -43,6 +43,28 @@ def run_on_pty(child, script, env):
     return PtyResult(p.returncode, got, err)
 
 
+def run_redirected(child, script, env):
+    """the child gets a second pipe; half-way through its script it dup2()s that pipe onto its standard output.  Returns what
+    arrived on the first pipe followed by what arrived on the second (the order in which the program wrote)"""
+    import threading
+    r2, w2 = os.pipe()
+    p = subprocess.Popen([child], stdin=subprocess.PIPE, stdout=subprocess.PIPE, stderr=subprocess.PIPE,
+                         env=dict(env, VERIF_REDIRECT=str(w2)), pass_fds=(w2,))
+    os.close(w2)
+    second = []
+
+    def drain():
+        with os.fdopen(r2, "rb") as fh:
+            second.append(fh.read())
+    th = threading.Thread(target=drain)
+    th.start()
+    out, err = p.communicate(script, timeout=120)
+    th.join()
+    res = PtyResult(p.returncode, out + b"".join(second), err)
+    res.first = out
+    return res
+
+
 class Prop(PropBase):
     ID = "C14"
     custom_replays = True
@@ -106,11 +128,15 @@ class Prop(PropBase):
 
         def flat(ans):
             return b"".join(unhex(seg.split(" / ")[0].strip()) for seg in ans.split(" ; ")) if ans != "-" else b""
-        expected, model = {}, {}
+        expected, model, expected_ans = {}, {}, {}
+
+        def flat_ops(ans, k):
+            return b"".join(unhex(seg.split(" / ")[0].strip()) for seg in ans.split(" ; ")[:k]) if ans != "-" else b""
         if ctx["exe"]:
             rc, ans, err = build.run_lines(ctx["exe"], scripts)
             for s_, a_ in zip(scripts, ans):
                 expected[s_] = flat(a_)
+                expected_ans[s_] = a_
         if ctx["driver"]:
             rc, ans, err = build.run_lines(ctx["driver"], scripts)
             for s_, a_ in zip(scripts, ans):
@@ -132,9 +158,26 @@ class Prop(PropBase):
         # master side) instead of a pipe
         env_pty = dict(env, VERIF_PTY="1")
         runs += [(s_, env_pty) for s_ in scripts[:30] if len(s_) < 50000]
+        # … with the last operation performed from an atexit handler registered before the first write
+        env_atexit = dict(env, VERIF_ATEXIT="1")
+        runs += [(s_, env_atexit) for s_ in scripts[:30] if s_.count(";") >= 2]
+        # … and with standard output redirected (dup2) half-way through the script: first half on the old pipe, rest on the new
+        env_redirect = dict(env, VERIF_REDIRECT="?")
+        runs += [(s_, env_redirect) for s_ in scripts[:30] if s_.count(";") >= 2 and len(s_) < 50000]
         for s_, env_ in runs:
             body = s_[1:].strip()  # drop the kind letter
-            if env_ is env_pty:
+            if env_ is env_redirect:
+                p = run_redirected(child, (body + "\n").encode(), env)
+                # what belongs on the OLD standard output: the operations before the redirect (the child redirects before
+                # the operation with index (n_ops + 1) // 2, counting from 1)
+                n_parts = len(body.split(";"))
+                first_ops = (n_parts + 1) // 2 - 1
+                exp_a = flat_ops(expected_ans.get(s_, "-"), first_ops)
+                if p.first != exp_a and expected.get(s_) is not None:
+                    failures.append({"what": "after dup2 onto standard output the channel kept writing to the old destination (or wrote early)",
+                                     "signature": "C14 stdout-differs", "lines": [s_], "old_pipe_len": len(p.first), "expected_old_pipe_len": len(exp_a),
+                                     "returncode": p.returncode})
+            elif env_ is env_pty:
                 p = run_on_pty(child, (body + "\n").encode(), env_)
             else:
                 p = subprocess.run([child], input=(body + "\n").encode(), stdout=subprocess.PIPE, stderr=subprocess.PIPE, env=env_, timeout=120)
@@ -151,7 +194,8 @@ class Prop(PropBase):
             if not ok:
                 first = next((i for i, (x, y) in enumerate(zip(got, exp)) if x != y), min(len(got), len(exp)))
                 how = {id(env_fmt): " (std::cout left with pending width/fill/base)", id(env_errno): " (errno left at EAGAIN/EINTR)",
-                       id(env_nosync): " (after std::ios::sync_with_stdio(false))", id(env_pty): " (standard output is a raw-mode pseudo terminal)"}.get(id(env_), "")
+                       id(env_nosync): " (after std::ios::sync_with_stdio(false))", id(env_pty): " (standard output is a raw-mode pseudo terminal)",
+                       id(env_atexit): " (last operation from an atexit handler)", id(env_redirect): " (standard output redirected with dup2 half-way)"}.get(id(env_), "")
                 failures.append({"what": "child stdout differs from the capturing channel" + how,
                                  "signature": "C14 stdout-differs",
                                  "lines": [s_], "returncode": p.returncode, "first_difference_at": first,
